@@ -49,9 +49,16 @@ struct Stats {
     /// although the ring has room, for connections whose ring cannot grow
     waiting_writer_with_room: AtomicU64,
     lost_wakeups: AtomicU64,
+    last_snaps: parking_lot::Mutex<std::collections::BTreeMap<String, Vec<String>>>,
+    deaths_with_error: AtomicU64,
+    first_death: parking_lot::Mutex<Option<String>>,
+    waiting_dispatcher_with_data: AtomicU64,
+    tx_snapshots_checked_dispatcher: AtomicU64,
     spin_pending_polls: AtomicU64,
     spin_room_after_full: AtomicU64,
     spin_wakeups_confirmed: AtomicU64,
+    spin_flushes: AtomicU64,
+    final_flush_errors: AtomicU64,
     spin_empty_polls: AtomicU64,
     spin_data_after_empty: AtomicU64,
     tx_snapshots_checked: AtomicU64,
@@ -91,7 +98,7 @@ impl std::task::Wake for Flag {
 /// (the connection task frees space and takes the waker under one lock, then wakes it): a waker that
 /// is still silent two seconds after room was seen is a lost wake-up - a writer that had parked on
 /// it would sleep next to free space. Only used with rings that cannot grow.
-fn spin_writer(mut w: librqbit_utp::UtpStreamWriteHalf, wkey: u64, want_w: usize, chunk: usize, conn: u32, side: u8, st: Arc<Stats>) -> (librqbit_utp::UtpStreamWriteHalf, bool) {
+fn spin_writer(mut w: librqbit_utp::UtpStreamWriteHalf, wkey: u64, want_w: usize, chunk: usize, conn: u32, side: u8, st: Arc<Stats>, flush_calls: bool) -> (librqbit_utp::UtpStreamWriteHalf, bool) {
     use std::{pin::Pin, task::{Context, Poll, Waker}};
     use tokio::io::AsyncWrite;
     let mut off = 0usize;
@@ -166,6 +173,59 @@ fn spin_writer(mut w: librqbit_utp::UtpStreamWriteHalf, wkey: u64, want_w: usize
             });
         }
         off += n;
+        // request/response style: wait until everything written so far is acknowledged, then write
+        // on at once - the next write lands while the connection task is still finishing the poll
+        // that processed the last acknowledgement. Same wake-up oracle: flush is pending while the
+        // ring holds bytes and registers the waker; the ring is drained under the same lock, which
+        // takes that waker and wakes it.
+        if flush_calls && (off / chunk.max(1)) % 2 == 0 {
+            loop {
+                let f = Arc::new(Flag(AtomicBool::new(false)));
+                let waker = Waker::from(f.clone());
+                let mut cx = Context::from_waker(&waker);
+                match Pin::new(&mut w).poll_flush(&mut cx) {
+                    Poll::Ready(Ok(())) => {
+                        st.spin_flushes.fetch_add(1, Ordering::Relaxed);
+                        if let Some(prev) = registered.take() {
+                            st.spin_room_after_full.fetch_add(1, Ordering::Relaxed);
+                            if !prev.0.load(Ordering::SeqCst) {
+                                unconfirmed.push((prev, std::time::Instant::now()));
+                            }
+                        }
+                        break;
+                    }
+                    Poll::Ready(Err(_)) if off >= want_w => {
+                        // Everything was written; the peer, which closes once it has read it all,
+                        // may close while this last flush is being polled. The connection task
+                        // marks the stream closed and drops the acknowledged bytes from the ring
+                        // in two separate critical sections of one poll, so a flush polled from
+                        // another thread in between reports "socket died" although everything
+                        // was delivered. No property promises a successful flush there (C03 is
+                        // about the converse); counted, not judged.
+                        st.final_flush_errors.fetch_add(1, Ordering::Relaxed);
+                        break;
+                    }
+                    Poll::Ready(Err(e)) => {
+                        st.errors.fetch_add(1, Ordering::Relaxed);
+                        st.problem(format!("conn {conn} side {side}: flush failed after {off} of {want_w}: {e}"));
+                        ok = false;
+                        break 'outer;
+                    }
+                    Poll::Pending => {
+                        st.spin_pending_polls.fetch_add(1, Ordering::Relaxed);
+                        registered = Some(f);
+                        spins += 1;
+                        if spins % 64 == 0 {
+                            std::thread::yield_now();
+                        } else {
+                            for _ in 0..(spins.wrapping_mul(0x9E37_79B9) >> 7) % 300 {
+                                std::hint::spin_loop();
+                            }
+                        }
+                    }
+                }
+            }
+        }
     }
     // settle what is left
     let t = std::time::Instant::now();
@@ -251,7 +311,7 @@ fn spin_reader(mut r: librqbit_utp::UtpStreamReadHalf, rkey: u64, want_r: usize,
     (r, ok)
 }
 
-async fn run_side(mut r: librqbit_utp::UtpStreamReadHalf, mut w: librqbit_utp::UtpStreamWriteHalf, seed: u64, conn: u32, side: u8, total: [usize; 2], chunk: usize, rbuf: usize, stats: Arc<Stats>, spin: bool, spin_read: bool) -> bool {
+async fn run_side(mut r: librqbit_utp::UtpStreamReadHalf, mut w: librqbit_utp::UtpStreamWriteHalf, seed: u64, conn: u32, side: u8, total: [usize; 2], chunk: usize, rbuf: usize, stats: Arc<Stats>, spin: bool, spin_read: bool, spin_flush: bool) -> bool {
     let wkey = stream_key(seed, conn, side);
     let rkey = stream_key(seed, conn, 1 - side);
     let want_w = total[side as usize];
@@ -260,7 +320,7 @@ async fn run_side(mut r: librqbit_utp::UtpStreamReadHalf, mut w: librqbit_utp::U
     // writer and reader are separate tasks: they run on other worker threads than the connection task
     let st_spin = stats.clone();
     let wt = if spin {
-        tokio::task::spawn_blocking(move || spin_writer(w, wkey, want_w, chunk, conn, side, st_spin))
+        tokio::task::spawn_blocking(move || spin_writer(w, wkey, want_w, chunk, conn, side, st_spin, spin_flush))
     } else { tokio::spawn(async move {
         let mut off = 0usize;
         let mut buf = vec![0u8; chunk];
@@ -336,6 +396,9 @@ fn main() -> std::process::ExitCode {
     // readers (every growth step copies the ring while the writer, on another thread, keeps pushing);
     // 2 = tiny: TX ring of a few hundred bytes that cannot grow, writes of a few bytes (the writer
     // blocks on a full ring after nearly every ACK and depends on the connection task to wake it)
+    // 3 = spin: as 2, writers / readers poll from their own OS threads with fresh wakers
+    // 4 = ping: mixed buffers, the connecting side writes small messages from its own OS thread and
+    //     flushes after every other one (write - wait for the ACK - write on at once)
     let profile = arg(&args, "--profile", 0);
     let out = args.iter().position(|a| a == "--out").and_then(|i| args.get(i + 1).cloned());
     let stats = Arc::new(Stats::default());
@@ -361,16 +424,42 @@ fn main() -> std::process::ExitCode {
                 V::VsockCreated { .. } => {
                     st.vsock_created.fetch_add(1, Ordering::Relaxed);
                 }
+                V::Death { id, error: Some(e) } => {
+                    st.deaths_with_error.fetch_add(1, Ordering::Relaxed);
+                    let mut g = st.first_death.lock();
+                    if g.is_none() {
+                        *g = Some(format!("{}->{}: {}", id.local, id.remote, e));
+                    }
+                }
                 V::VsockDropped { .. } => {
                     st.vsock_dropped.fetch_add(1, Ordering::Relaxed);
                 }
-                V::PollEnd { id, snap, .. } => {
+                V::PollEnd { id, snap, finished } => {
                     st.polls.fetch_add(1, Ordering::Relaxed);
+                    if std::env::var_os("UVH_MT_DEBUG").is_some() {
+                        let mut g = st.last_snaps.lock();
+                        let v = g.entry(format!("{}->{}", id.local, id.remote)).or_default();
+                        v.push(format!("state={} ring={} segs={} flight={} unseg={} remote_fin={:?} our_fin={:?} last_consumed={} seq_nr={} last_sent={} finished={:?} tx_closed={}", snap.state, snap.tx.ring_len, snap.segments.count, snap.flight_size, snap.unsegmented_data, snap.remote_fin, snap.our_fin, snap.last_consumed_remote_seq_nr, snap.seq_nr, snap.last_sent_seq_nr, finished, snap.tx.vsock_closed));
+                        if v.len() > 6 { v.remove(0); }
+                    }
                     // Writers here only ever wait for space (no flush / shutdown calls). The writer
                     // registers its waker under the lock when a push stored nothing, the connection
                     // task frees space and takes the waker under the same lock: a snapshot (same
                     // lock) must never show a registered writer next to free space. (Growing rings
                     // are left out: growth adds room without waking.)
+                    // The connection task registers its own waker with the TX buffer only when it
+                    // found the ring empty, under the lock the writer holds while it pushes and
+                    // takes that waker: a snapshot (same locks) must never show the task registered
+                    // as waiting for the writer next to bytes in the ring.
+                    st.tx_snapshots_checked_dispatcher.fetch_add(1, Ordering::Relaxed);
+                    if snap.tx.dispatcher_waker_set && snap.tx.ring_len > 0 && !snap.tx.vsock_closed {
+                        if st.waiting_dispatcher_with_data.fetch_add(1, Ordering::Relaxed) == 0 {
+                            st.problem(format!(
+                                "lost wake-up: connection task of {}->{} registered as waiting for the writer with {} bytes in the ring (state {})",
+                                id.local, id.remote, snap.tx.ring_len, snap.state
+                            ));
+                        }
+                    }
                     if check_waiting {
                         st.tx_snapshots_checked.fetch_add(1, Ordering::Relaxed);
                         if snap.tx.writer_waker_set && snap.tx.ring_len < snap.tx.ring_capacity && !snap.tx.vsock_closed {
@@ -485,6 +574,8 @@ fn main() -> std::process::ExitCode {
                     let (total, chunk, rbuf) = match profile {
                         1 => ([rng.range(bytes as u64 / 2, bytes as u64) as usize, rng.range(bytes as u64 / 2, bytes as u64) as usize], *rng.pick(&[5usize, 17, 64, 300]), 65536),
                         2 | 3 => ([rng.range(bytes as u64 / 2, bytes as u64) as usize, rng.range(bytes as u64 / 2, bytes as u64) as usize], *rng.pick(&[1usize, 3, 17, 90]), 65536),
+                        // ping: small messages, each followed by a flush on the connecting side
+                        4 => ([rng.range(bytes as u64 / 2, bytes as u64) as usize, rng.range(bytes as u64 / 2, bytes as u64) as usize], *rng.pick(&[20usize, 100, 400, 1500]), 65536),
                         _ => (total, chunk, rbuf),
                     };
                     let delay = round as u64 * 50 + rng.below(30);
@@ -524,7 +615,7 @@ fn main() -> std::process::ExitCode {
                         let t1 = u64::from_le_bytes(hdr[8..16].try_into().unwrap()) as usize;
                         let ch = u32::from_le_bytes(hdr[16..20].try_into().unwrap()) as usize;
                         let rb = u32::from_le_bytes(hdr[20..24].try_into().unwrap()) as usize;
-                        let ok = run_side(r, w, seed, c, 1, [t0, t1], ch, rb, st3.clone(), false, profile == 3).await;
+                        let ok = run_side(r, w, seed, c, 1, [t0, t1], ch, rb, st3.clone(), false, profile == 3, false).await;
                         if ok {
                             st3.conns_done.fetch_add(1, Ordering::Relaxed);
                         }
@@ -552,7 +643,7 @@ fn main() -> std::process::ExitCode {
                             st2.problem("token write failed".into());
                             return;
                         }
-                        let ok = run_side(r, w, seed, conn, 0, total, chunk, rbuf, st2.clone(), profile == 3, false).await;
+                        let ok = run_side(r, w, seed, conn, 0, total, chunk, rbuf, st2.clone(), profile == 3 || profile == 4, false, profile == 4).await;
                         if ok {
                             st2.conns_done.fetch_add(1, Ordering::Relaxed);
                         }
@@ -584,7 +675,7 @@ fn main() -> std::process::ExitCode {
         "panic"
     } else if mism > 0 {
         "content-mismatch"
-    } else if stats.waiting_writer_with_room.load(Ordering::Relaxed) > 0 || stats.lost_wakeups.load(Ordering::Relaxed) > 0 {
+    } else if stats.waiting_writer_with_room.load(Ordering::Relaxed) > 0 || stats.lost_wakeups.load(Ordering::Relaxed) > 0 || stats.waiting_dispatcher_with_data.load(Ordering::Relaxed) > 0 {
         "lost-wakeup"
     } else if !all_joined {
         "stall"
@@ -623,6 +714,12 @@ fn main() -> std::process::ExitCode {
         ("spin_wakeups_confirmed_late", stats.spin_wakeups_confirmed.load(Ordering::Relaxed).to_string()),
         ("spin_read_polls_that_found_nothing", stats.spin_empty_polls.load(Ordering::Relaxed).to_string()),
         ("spin_data_after_empty_events", stats.spin_data_after_empty.load(Ordering::Relaxed).to_string()),
+        ("tx_snapshots_checked_for_a_sleeping_connection_task", stats.tx_snapshots_checked_dispatcher.load(Ordering::Relaxed).to_string()),
+        ("snapshots_with_the_connection_task_waiting_next_to_data", stats.waiting_dispatcher_with_data.load(Ordering::Relaxed).to_string()),
+ ("final_flushes_that_met_the_peers_close", stats.final_flush_errors.load(Ordering::Relaxed).to_string()),
+        ("spin_flushes_completed", stats.spin_flushes.load(Ordering::Relaxed).to_string()),
+        ("connection_tasks_ended_with_an_error", stats.deaths_with_error.load(Ordering::Relaxed).to_string()),
+        ("first_connection_error", match stats.first_death.lock().clone() { Some(e) => format!("\"{}\"", e.replace('"', "'")), None => "null".to_string() }),
         ("lost_wakeups", stats.lost_wakeups.load(Ordering::Relaxed).to_string()),
         ("tx_snapshots_checked_for_lost_wakeups", stats.tx_snapshots_checked.load(Ordering::Relaxed).to_string()),
         ("snapshots_with_a_waiting_writer_next_to_free_space", stats.waiting_writer_with_room.load(Ordering::Relaxed).to_string()),
@@ -630,6 +727,13 @@ fn main() -> std::process::ExitCode {
         ("wall_s", format!("{wall:.1}")),
     ];
     let json = format!("{{{}}}", fields.iter().map(|(k, v)| format!("\"{k}\":{v}")).collect::<Vec<_>>().join(","));
+    if std::env::var_os("UVH_MT_DEBUG").is_some() && problem.is_some() {
+        for (k, v) in stats.last_snaps.lock().iter() {
+            for l in v {
+                eprintln!("SNAP {k}: {l}");
+            }
+        }
+    }
     for w in warn_buf.lock().iter().take(20) {
         eprintln!("WARN: {w}");
     }
